@@ -109,18 +109,8 @@ fixed("C19", "C19-upload-read-once", "819c970", 'map {"0":["variables.l.0","vari
 fixed("C19", "C19-shared-variable-tree-mutated", "4208c9a", "mutation($o:UpIn){ uploadIn(in:$o) uploadIn1(in:$o) } with a file at variables.o.f: extractFiles nulled nested uploads inside the variable values shared with the request to the other service (second consumer got null); built at the same time the process died with 'concurrent map iteration and map write' at queryer/files.go:63")
 
 # ----------------------------------------------------------------------------- C15
-known("C15", "C15-arg-defaults-dropped", ["src:arg-default"], r"^(reconstruction MISSING arg default|an operation is valid against the source but not against the reconstruction \(or vice versa\))$",
-      "parseArgList (introspection/remote.go:354-367) never sets DefaultValue: every field-argument default of a remote schema is lost (a required argument with a default becomes mandatory)",
-      witness="type Query { echo(x: Int! = 7): Int }")
-known("C15", "C15-field-deprecations-dropped", ["src:field-deprecated"], r"^reconstruction MISSING field deprecated$",
-      "isDeprecated/deprecationReason of fields are decoded but not turned into @deprecated", witness="type Query { old: Int @deprecated }")
-known("C15", "C15-enum-deprecations-dropped", ["src:enumvalue-deprecated"], r"^reconstruction MISSING enumvalue deprecated$",
-      "isDeprecated/deprecationReason of enum values are decoded but not turned into @deprecated", witness="enum E { A @deprecated B }")
-known("C15", "C15-input-defaults-mangled", ["src:inputfield-default"], r"^reconstruction (MISSING|CHANGED) inputfield default$",
-      "parseInputField (introspection/remote.go:279-352) treats the defaultValue string (a GraphQL literal) as a JSON value of the field's named type: enum, object, list, null and quoted string defaults are dropped or re-quoted",
-      witness='input I { e: E = B l: [E!] = [A, B] s: String = "d" }')
-known("C15", "C15-directive-arg-defaults-dropped", ["src:directivearg-default"], r"^reconstruction MISSING directivearg default$",
-      "directive arguments go through the same parseArgList that never sets DefaultValue", witness='directive @tag(name: String! = "x") on FIELD_DEFINITION')
+fixed("C15", "C15-deprecations-dropped", "fc6482b", "a service's @deprecated fields and enum values: isDeprecated / deprecationReason were asked for and decoded but never applied, the reconstruction had no deprecations")
+fixed("C15", "C15-defaults-dropped-or-mangled", "aca1efb", "echo(x: Int = 7), directive @tag(name: String! = \"x\"), input In { c: Color = RED s: String = \"s\" o: In2 = {a: 1} }: defaults of field and directive arguments were never set; defaults of input fields were taken as JSON values of the named type instead of GraphQL literals (strings double quoted, enum and object defaults turned into strings)")
 fixed("C15", "C15-directive-args-dropped", "74761fb", "json tag `arg` instead of `args`: custom directives of a remote schema were reconstructed without arguments")
 
 # ----------------------------------------------------------------------------- C16
@@ -130,9 +120,7 @@ fixed("C16", "C16-directive-isRepeatable", "6f0dd25", "{ __schema { directives {
 fixed("C16", "C16-introspection-mixed-with-data", "a13b1aa", "{ __schema { queryType { name } } n1s { id } }: the gateway answered the introspection part only and dropped the data fields")
 fixed("C01", "C01-root-typename", "a13b1aa", "{ __typename echo } / mutation { __typename incr(by:1) }: the operation's own __typename was planned as a step for the internal pseudo service and sent to it over HTTP (parse \"%#!\": invalid URL escape), the whole operation failed")
 fixed("C16", "C16-deprecation-reason-default", "39f8d88", "type Dep { older: Int @deprecated }: deprecationReason was empty instead of the directive's default reason")
-known("C16", "C16-second-gateway-loses-defaults-and-deprecations", ["icase-std-graphql-js"],
-      r"^second-gateway rebuild (MISSING|CHANGED) (arg default|enumvalue deprecated|field deprecated|inputfield default|directivearg default)$",
-      "a second gateway rebuilding this gateway's schema loses argument defaults, deprecations and mangles input defaults - the remote-introspection defects recorded under C15", witness="standard introspection of the gateway by introspection/remote.go")
+fixed("C16", "C16-second-gateway-loses-defaults-and-deprecations", "aca1efb", "a second gateway that introspects this gateway rebuilt a schema without argument defaults and deprecations and with mangled input defaults (the remote-introspection defects fixed by fc6482b and aca1efb)")
 fixed("C16", "C16-kind-guards", "b1fec98", "fields/interfaces/enumValues/inputFields answered with lists for kinds that do not have them; a second gateway failed with 'Field X.y can only be defined once'")
 fixed("C16", "C16-type-by-variable", "70087a8", "__type(name: $n) looked up the variable's name")
 fixed("C16", "C16-interface-possible-types", "cacf763", "possibleTypes of interfaces was null")
